@@ -20,6 +20,7 @@ import (
 	"math"
 	"os"
 	"path/filepath"
+	"sort"
 	"sync"
 	"time"
 
@@ -261,9 +262,32 @@ func run(c *rig.Ctx) {
 		// variant: extra writes to the quiet channel's registers
 		var extra []op
 		regs := chanRegs(qc)
-		for t := int64(50); t < total; t += int64(1 + r.Intn(30000)) {
-			extra = append(extra, op{t, regs[r.Intn(len(regs))], r.U8()})
+		// single random stores, and short gestures that drive the quiet channel through its
+		// length counter, DAC and trigger logic (length about to expire, enabled with and
+		// without a trigger, DAC off and on, re-triggers)
+		n := len(regs)
+		lenReg, envReg, ctlReg := regs[n-4], regs[n-3], regs[n-1]
+		if qc == 2 {
+			lenReg, envReg, ctlReg = 0xff1b, 0xff1a, 0xff1e
 		}
+		for t := int64(50); t < total; t += int64(1 + r.Intn(6000)) {
+			switch r.Intn(8) {
+			case 0:
+				lv := r.Pick8([]uint8{0x3f, 0xff, 0x3e, 0xfe, 0x00})
+				extra = append(extra, op{t, lenReg, lv}, op{t + 1, ctlReg, 0x00}, op{t + 2 + int64(r.Intn(3000)), ctlReg, 0x40})
+			case 1:
+				extra = append(extra, op{t, lenReg, r.Pick8([]uint8{0x3f, 0xff})}, op{t + int64(r.Intn(4)), ctlReg, r.Pick8([]uint8{0x40, 0xc0})})
+			case 2:
+				extra = append(extra, op{t, envReg, 0x00}, op{t + int64(r.Intn(5000)), envReg, r.Pick8([]uint8{0xf0, 0x80, 0x08})})
+			case 3:
+				extra = append(extra, op{t, envReg, r.Pick8([]uint8{0xf0, 0x80})}, op{t + 1, ctlReg, 0x80 | r.U8()&0x47})
+			case 4:
+				extra = append(extra, op{t, ctlReg, r.Pick8([]uint8{0x00, 0x40, 0x80, 0xc0})})
+			default:
+				extra = append(extra, op{t, regs[r.Intn(len(regs))], r.U8()})
+			}
+		}
+		sort.SliceStable(extra, func(a, b int) bool { return extra[a].at < extra[b].at })
 		merged := make([]op, 0, len(base)+len(extra))
 		a, b := 0, 0
 		for a < len(base) || b < len(extra) {
@@ -345,6 +369,12 @@ func run(c *rig.Ctx) {
 				// a consumer that is late for a while (the sample queue fills up) ...
 				if n == 2 || n == 3 || n == 60 {
 					time.Sleep(20 * time.Millisecond)
+				}
+				// ... or stops draining for a third of a second (a host hiccup: the emulator must
+				// wait, not drop samples)
+				if i%6 == 0 && n == 5 {
+					time.Sleep(330 * time.Millisecond)
+					c.Count("wiring_long_consumer_stalls", 1)
 				}
 			}
 			glfw.OnPoll = func(w *glfw.Window, n int64) {
